@@ -8,6 +8,49 @@ use std::rc::Rc;
 
 pub const INJECTED: &str = "vcheck-injected";
 
+/// every error kind a destination or source can answer with (the stable variants of std::io::ErrorKind)
+pub const ALL_KINDS: [io::ErrorKind; 39] = [
+    io::ErrorKind::Other,
+    io::ErrorKind::NotFound,
+    io::ErrorKind::PermissionDenied,
+    io::ErrorKind::ConnectionRefused,
+    io::ErrorKind::ConnectionReset,
+    io::ErrorKind::HostUnreachable,
+    io::ErrorKind::NetworkUnreachable,
+    io::ErrorKind::ConnectionAborted,
+    io::ErrorKind::NotConnected,
+    io::ErrorKind::AddrInUse,
+    io::ErrorKind::AddrNotAvailable,
+    io::ErrorKind::NetworkDown,
+    io::ErrorKind::BrokenPipe,
+    io::ErrorKind::AlreadyExists,
+    io::ErrorKind::WouldBlock,
+    io::ErrorKind::NotADirectory,
+    io::ErrorKind::IsADirectory,
+    io::ErrorKind::DirectoryNotEmpty,
+    io::ErrorKind::ReadOnlyFilesystem,
+    io::ErrorKind::StaleNetworkFileHandle,
+    io::ErrorKind::InvalidInput,
+    io::ErrorKind::InvalidData,
+    io::ErrorKind::TimedOut,
+    io::ErrorKind::WriteZero,
+    io::ErrorKind::StorageFull,
+    io::ErrorKind::NotSeekable,
+    io::ErrorKind::QuotaExceeded,
+    io::ErrorKind::FileTooLarge,
+    io::ErrorKind::ResourceBusy,
+    io::ErrorKind::ExecutableFileBusy,
+    io::ErrorKind::Deadlock,
+    io::ErrorKind::CrossesDevices,
+    io::ErrorKind::TooManyLinks,
+    io::ErrorKind::InvalidFilename,
+    io::ErrorKind::ArgumentListTooLong,
+    io::ErrorKind::Interrupted,
+    io::ErrorKind::Unsupported,
+    io::ErrorKind::UnexpectedEof,
+    io::ErrorKind::OutOfMemory,
+];
+
 #[derive(Clone, Debug, PartialEq, Eq)]
 pub enum Op {
     Write { call: u32, pos: u64, bytes: Vec<u8> },
@@ -71,6 +114,9 @@ pub struct DevInner {
     pub zero_write_on_fault: bool,
     /// the calls during which a fault fired (kept even when logging is off)
     pub fault_calls: Vec<u32>,
+    /// a seek hit by a fault still moves the position before it reports the error (a layered destination whose
+    /// lower layer has already moved)
+    pub seek_moves_on_fault: bool,
 }
 
 #[derive(Clone)]
@@ -97,6 +143,7 @@ impl Dev {
             fault_kind: io::ErrorKind::Other,
             zero_write_on_fault: false,
             fault_calls: vec![],
+            seek_moves_on_fault: false,
         })))
     }
     pub fn quiet(data: Vec<u8>) -> Dev {
@@ -140,6 +187,9 @@ impl Dev {
         for i in 0..n {
             self.fail_at(k + i, FaultMode::OneShot);
         }
+    }
+    pub fn set_seek_moves_on_fault(&self, on: bool) {
+        self.0.borrow_mut().seek_moves_on_fault = on;
     }
     pub fn set_zero_write_on_fault(&self, on: bool) {
         self.0.borrow_mut().zero_write_on_fault = on;
@@ -278,7 +328,19 @@ impl Read for Dev {
 impl Seek for Dev {
     fn seek(&mut self, from: SeekFrom) -> io::Result<u64> {
         let mut d = self.0.borrow_mut();
-        d.gate("seek")?;
+        if let Err(e) = d.gate("seek") {
+            if d.seek_moves_on_fault {
+                let new = match from {
+                    SeekFrom::Start(n) => n as i128,
+                    SeekFrom::End(n) => d.data.len() as i128 + n as i128,
+                    SeekFrom::Current(n) => d.pos as i128 + n as i128,
+                };
+                if new >= 0 && new <= u64::MAX as i128 {
+                    d.pos = new as u64;
+                }
+            }
+            return Err(e);
+        }
         let new = match from {
             SeekFrom::Start(n) => n as i128,
             SeekFrom::End(n) => d.data.len() as i128 + n as i128,
